@@ -23,16 +23,17 @@ META = {
     'engine': 'S',
     'technique': 'stateless schedule exploration (preemption-bounded, line-granular) x exhaustive clock-reading scripts on the real generator',
     'text': 'All executions of a shared default MonotonicTimestampGenerator called by 2 threads x 2 calls (quick: preemption bound 2 for '
-            'the whole-microsecond domain, 1 for the others; thorough: bound 2-3, also 3 threads) and by 1 thread x 4 calls (thorough: 5), '
-            'with every clock-reading sequence chosen per call from: whole microseconds {10,11,12} us (standing still / stepping back); '
-            '{10,1500000,3000000} us (jump far ahead, then fall back by more than the 1 s warning threshold with the warning interval '
-            'elapsed: the "Clock skew detected" branch is taken, and also the rate-limited and the below-threshold variants; the number '
-            'of executions that emitted the warning is counted and must be > 0); float seconds with sub-microsecond parts and inexact '
-            'float products {16.0, 16.0000005, 16.000001, 16.0000015, 16.000002} s and, epoch-sized, 1.7e9 s + {0, 2.4e-7, 4.8e-7, '
-            '9.5e-7, 1.2e-6, 1.9e-6} (single thread; first three of the 16 s family for two threads).  Scheduling points at the '
-            'lock and at every source line of __call__, _next_timestamp and _maybe_warn.  Oracle: all returned values distinct, '
-            'each >= the exact floor in microseconds of the float reading taken for that call, each thread\'s values increasing, and '
-            'a call that starts after another returned gets a larger value.',
+            'the whole-microsecond domain, 1 for the others; thorough: bound 2-3, also 3 threads) and by a single thread x 3-4 calls '
+            '(thorough: 4-5), with every clock-reading sequence chosen per call from: whole microseconds {10,11,12} us (standing still / '
+            'stepping back); {10,1500000,3000000} us (jump far ahead, then fall back by more than the 1 s warning threshold with the '
+            'warning interval elapsed: the "Clock skew detected" branch is taken, and also its rate-limited and below-threshold '
+            'variants; the number of executions that emitted the warning is counted and must be > 0; 2 threads and 1 thread x 4 '
+            'calls); float seconds with sub-microsecond parts and inexact float products {16.0, 16.0000005, 16.000001, 16.0000015, '
+            '16.000002} s (1 thread x 4 calls; the first three values for 2 threads) and the 9 consecutive representable readings '
+            'from 1.7e9 s upward (spacing 2^-22 s, about 0.24 us; 1 thread x 3 calls).  Scheduling points at the lock (every '
+            'acquisition, also a re-acquisition inside a call) and at every source line of __call__, _next_timestamp and _maybe_warn.  '
+            'Oracle: all returned values are distinct ints, each >= the exact floor in microseconds of the float reading taken for '
+            'that call, each thread\'s values increasing, and a call that starts after another returned gets a larger value.',
     'note': 'threading.Lock in cassandra.timestamps is replaced by the scheduler-aware VLock; preemption granularity is the '
             'source line (CPython hands the GIL over between bytecodes; a read-modify-write within one line is not split).',
     'design_ref': 'C31',
